@@ -50,6 +50,7 @@ type Engine struct {
 	lastValueNames []string
 	curInstr ssa.Instruction
 	provingInv bool
+	recSpec map[string]bool
 
 	MaxPaths int
 	Tier     string
@@ -100,7 +101,7 @@ func Load(repoDir, specDir string, patterns []string) (*Engine, error) {
 	E := &Engine{RepoDir: repoDir, SpecDir: specDir, Pkgs: pkgs, Prog: prog, AllPkgs: map[string]*types.Package{},
 		Funcs: map[string]*ssa.Function{}, CS: NewContracts(), decls: map[string]string{}, strLits: map[string]string{},
 		typeIDs: map[string]int{}, specDecl: map[string]bool{}, globals: map[string]*Val{}, noteSet: map[string]bool{},
-		nonNilGlobals: map[string]bool{}, MaxPaths: 6000, iters: map[string]*iterState{}, usedSpecs: map[string]bool{}, usedImmutable: map[string]bool{}, ghostTypes: map[string]types.Type{}}
+		nonNilGlobals: map[string]bool{}, MaxPaths: 6000, iters: map[string]*iterState{}, usedSpecs: map[string]bool{}, usedImmutable: map[string]bool{}, ghostTypes: map[string]types.Type{}, recSpec: map[string]bool{}}
 	E.initStringTheory()
 	var addPkg func(tp *types.Package)
 	addPkg = func(tp *types.Package) {
